@@ -158,9 +158,22 @@ def v3(ctx):
         ctx.check(ok, "shape-equality-gate", "accepting a variant is dominated by weak_shape(pattern node) == weak_shape(nullified variant)",
                   "ematch_node accepts a variant without its name-free shape being equal to the pattern node's", where_of(b, c.bb))
     # slot pairs are fed to the bijection builder in (e-graph slot, pattern slot) order and zipped over all occurrences
-    tr = [c for c in b.calls if c.callee and c.callee.name == "try_insert_compatible_slotmap_bij"]
+    tr = [c for c in b.all_calls() if c.callee and c.callee.name == "try_insert_compatible_slotmap_bij"]
     ctx.floor("slot-pair insertions", len(tr), 1)
     for c in tr:
+        if c.body is not b:
+            # `zip(all_slot_occurrences(variant), all_slot_occurrences(pattern node)).all(|(x, y)| try_insert..(x, y, &mut st.partial_slotmap))`
+            cb_ = c.body
+            host = [h for h in b.calls if h.callee and h.callee.name in ("all", "try_for_each", "for_each") and not b.blocks[h.bb]["cleanup"] and len(h.args) == 2
+                    and C._closure_of_role(crate, b.role_of_operand(h.args[1])) is cb_]
+            z = b.role_of_operand(host[0].args[0]) if host else None
+            ks = [role_str(strip_role(cb_.role_of_operand(a)), 12) for a in c.args[:2]]
+            ok = z is not None and role_mentions_call(z, "zip") and role_mentions_call(z, "all_slot_occurrences") and len(ks) == 2 and ks[0].endswith(".0") and ks[1].endswith(".1") and ks[0][:-2] == ks[1][:-2]
+            ctx.check(ok, "pairs-from-zip-of-all-occurrences", "slot pairs come from zipping all_slot_occurrences of variant and pattern node",
+                      "slot pairs are %s of %s" % (ks, role_str(z)[:100] if z is not None else "?"), where_of(cb_, c.bb))
+            m = strip_role(cb_.role_of_operand(c.args[2] if len(c.args) > 2 else c.args[-1]))
+            ctx.check(role_mentions_field(m, "partial_slotmap"), "into-partial-slotmap", "pairs are inserted into the state's partial_slotmap", "pairs go into %s" % role_str(m), where_of(cb_, c.bb))
+            continue
         # arguments by type (the helper may be a free function (x, y, &mut map) or a method of the map)
         def aty(a):
             pl_ = mir.op_place(a)
@@ -619,9 +632,13 @@ def v14(ctx):
     b0, hosted = c04.node_matcher(crate)
     b = mir.inline_view(crate, b0, keep=c04.MATCHER_ANCHORS)
     zl = [l for l in C.iterator_loops(b) if role_mentions_call(l[1], "zip") and role_mentions_call(l[1], "applied_id_occurrences")]
-    if len(zl) != 1:
+    folds = c04.child_folds(crate, b)
+    if len(zl) != 1 and not (not zl and len(folds) == 1):
         raise mir.AnchorMissing("the child loop (zip of the node's children with the child patterns) of the node matcher", "found %d" % len(zl))
-    c04.every_child_matched(ctx, crate, b, zl[0])
+    if zl:
+        c04.every_child_matched(ctx, crate, b, zl[0])
+    else:
+        c04.every_child_matched_closure(ctx, crate, b, folds[0])
 
 
 RULES.append(v14)
